@@ -47,6 +47,7 @@ static int cur_op = -1;
 static size_t live_n, live_bytes;
 static uint64_t live_digest;
 static uint32_t next_id = 1;
+static uint32_t log_base; /* ids are logged relative to this, so that a forked run's log does not depend on what its parent allocated before */
 static heap_viol_t pending_viol;
 
 /* recycler */
@@ -135,6 +136,7 @@ size_t heap_live_count(void) { return live_n; }
 size_t heap_live_bytes(void) { return live_bytes; }
 uint64_t heap_live_digest(void) { return live_digest; }
 uint32_t heap_next_id(void) { return next_id; }
+void heap_log_rebase(void) { log_base = next_id - 1; }
 heap_viol_t heap_take_violation(void) { heap_viol_t v = pending_viol; pending_viol.kind = HV_NONE; return v; }
 int heap_is_live(const void *p) { return tab_find(p, NULL) >= 0; }
 size_t heap_block_size(const void *p) { int64_t i = tab_find(p, NULL); return i < 0 ? 0 : recs[i].size; }
@@ -221,7 +223,7 @@ static void *sim_alloc(size_t size, size_t align, int zero, const void *site) {
   tab_insert(p, (int64_t)nrecs);
   nrecs++;
   live_n++; live_bytes += size; live_digest ^= sm64_mix(b->id);
-  simlog("heap alloc id=%u size=%zu al=%zu rc=%d", b->id, size, align, recycled);
+  simlog("heap alloc id=%u size=%zu al=%zu rc=%d", b->id - log_base, size, align, recycled);
   if (heap_on_alloc) heap_on_alloc(p, size);
   return p;
 }
@@ -252,14 +254,14 @@ static int sim_release(void *p, const void *site) {
     if (pending_viol.kind == HV_NONE) {
       pending_viol.kind = dbl ? HV_DOUBLE_FREE : HV_INVALID_FREE; pending_viol.id = id; pending_viol.site = site;
     }
-    simlog("heap BAD free dbl=%d id=%u", dbl, id);
+    simlog("heap BAD free dbl=%d", dbl);
     return -1;
   }
   blk_t *b = &recs[i];
   b->live = 0;
   tab[slot] = -2; tabtomb++;
   live_n--; live_bytes -= b->size; live_digest ^= sm64_mix(b->id);
-  simlog("heap free id=%u", b->id);
+  simlog("heap free id=%u", b->id > log_base ? b->id - log_base : 0);
   if (heap_on_free) heap_on_free(p, b->size);
   if (cfg_recycle != RECYCLE_OFF && cfg_fill != FILL_STALE && cfg_fill >= 0) memset(p, 0xDD, b->size);
   size_t sz = b->size, al = b->align;
